@@ -84,6 +84,10 @@ let c07 (rest : string) : string =
                    (s', ls', out)
                | _ -> let (s', out) = Window.step s (c07_ev e) in (s', ls, out) in
              Buffer.add_string buf (Stdlib.String.concat " , " (Stdlib.List.map c07_frame out));
+             (match words e with
+              | "FL" :: _ ->
+                  Buffer.add_string buf (" L(" ^ str_n ls'.SenderCredit.l_dc ^ "," ^ str_n ls'.SenderCredit.l_credit ^ "," ^ str_b ls'.SenderCredit.l_drain ^ ")")
+              | _ -> ());
              Buffer.add_string buf (" # " ^ c07_counters s' ^ " ; ");
              (s', ls')) (s0, SenderCredit.linit N0) evs in
            Buffer.contents buf
@@ -108,13 +112,14 @@ let c08 (rest : string) : string =
           | ["F"; dc; cr; av; drain; echo] ->
               SenderCredit.LFlow { SenderCredit.lf_dc = opt_n dc; lf_credit = opt_n cr; lf_avail = opt_n av;
                                    lf_drain = (drain = "1"); lf_echo = (echo = "1") }
-          | ["S"] -> SenderCredit.LSend
+          | ["S"] | ["T"] -> SenderCredit.LSend      (* T: the non-waiting try_consume - the same credit step, refused instead of waiting *)
           | _ -> failwith ("c08: bad event " ^ e) in
+        let is_try = (words e = ["T"]) in
         let (s', o) = SenderCredit.lstep s ev in
         (match o with
          | SenderCredit.OFlow r -> Buffer.add_string buf ("R " ^ c08_flow r)
-         | SenderCredit.OSent t -> Buffer.add_string buf ("S " ^ str_n t)
-         | SenderCredit.OWait -> Buffer.add_string buf "WAIT");
+         | SenderCredit.OSent t -> Buffer.add_string buf ((if is_try then "T " else "S ") ^ str_n t)
+         | SenderCredit.OWait -> Buffer.add_string buf (if is_try then "TFAIL" else "WAIT"));
         Buffer.add_string buf (Printf.sprintf " # dc=%s credit=%s avail=%s drain=%s ; "
           (str_n s'.SenderCredit.l_dc) (str_n s'.SenderCredit.l_credit) (str_n s'.SenderCredit.l_avail)
           (str_b s'.SenderCredit.l_drain));
